@@ -114,7 +114,6 @@ class WebSocketDataQueue:
     def feed_eof(self) -> None:
         self._eof = True
         self._release_waiter()
-        self._exception = None  # Break cyclic references
 
     def feed_data(self, data: "WSMessage") -> None:
         size = data.size
